@@ -19,8 +19,10 @@ def run(ck, prog):
         "iter_template_arg() of the referenced class; hint positions are the argument's own range start, and the "
         "end of the field name's range for field overrides, with the field's declared type as label; (R19.3) "
         "every hint returned lies inside the requested range: the result is filtered by a containment test of "
-        "each hint's position against the request range. Not decided: the doc-comment adjacency rule, the "
-        "exact signature text.")
+        "each hint's position against the request range; (R19.4) in the doc-comment walk every cycle through the "
+        "statement that collects a line passes, on the passing edge, the four per-line tests (separator is "
+        "Whitespace, it contains exactly one newline, the line is a LineComment, it starts with //): no line is "
+        "collected across a blank line or a non-comment token. Not decided: the exact signature text.")
     ck.trusted = ["rowan tree navigation", "indexmap insertion order = declaration order"]
     for r, t in (("R19.1", "hover describes the symbol go-to-definition jumps to"),
                  ("R19.2", "hints are built from the referenced class's parameters in order, at the arguments' own positions"),
@@ -158,3 +160,137 @@ def run(ck, prog):
     ck.ob("R19.3", "range-filter", ok, why,
           msg="inlay_hint::exec returns hints without testing that their position lies inside the requested range (%s): a "
               "symbol that merely overlaps the range contributes hints outside of it" % why)
+
+    # ---- R19.4 -------------------------------------------------------------------
+    doc_adjacency(ck, prog, eb)
+
+
+def _gates(prog, b):
+    """conditional branches of `b` that test a token: -> list of (kind, switch_block, pass_target, fail_target)
+    kinds: 'ws' (kind == Whitespace), 'comment' (kind == LineComment), 'nl1' (text.matches('\\n').count() == 1),
+    'slashes' (text.starts_with("//"))"""
+    out = []
+    for i, bb in enumerate(b.blocks):
+        if bb["cleanup"]:
+            continue
+        t = bb["term"]
+        if t["k"] != "switch":
+            continue
+        dl = op_local(t["d"])
+        if dl is None:
+            continue
+        targets = {v: tgt for v, tgt in t["arms"]}
+        zero, other = targets.get(0), t["else"]
+        if zero is None or len(t["arms"]) != 1:
+            # a switch over the SyntaxKind discriminant itself (`matches!(tok.kind(), SyntaxKind::Whitespace)`)
+            d = b.single_def(dl)
+            if d and d[0] == "stmt" and "discr" in d[3] and "SyntaxKind" in (d[3].get("of") or ""):
+                for v, tgt in t["arms"]:
+                    name = prog.variant_by_discr("syntax::syntax_kind::SyntaxKind", v)
+                    if name in ("Whitespace", "LineComment"):
+                        out.append(("ws" if name == "Whitespace" else "comment", i, tgt, t["else"]))
+            continue
+        d = b.single_def(dl)
+        if d is None:
+            continue
+        if d[0] == "call":
+            c = Body.callee(d[2]) or ""
+            if c in ("std::cmp::PartialEq::eq", "std::cmp::PartialEq::ne") or c.endswith("PartialEq>::eq") or c.endswith("PartialEq>::ne"):
+                vals = set()
+                kind_side = False
+                for a in d[2]["args"][:2]:
+                    for o in prov.origins(b, a):
+                        if o[0] == "const" and "SyntaxKind::" in str(o[1]):
+                            vals.add(str(o[1]).rsplit("::", 1)[-1])
+                        if o[0] == "call" and str(o[1]).endswith("SyntaxToken::<L>::kind"):
+                            kind_side = True
+                if kind_side and len(vals) == 1 and next(iter(vals)) in ("Whitespace", "LineComment"):
+                    equal_tgt, differ_tgt = (other, zero) if c.endswith("::eq") else (zero, other)
+                    out.append(("ws" if "Whitespace" in vals else "comment", i, equal_tgt, differ_tgt))
+            elif c.endswith("<impl str>::starts_with"):
+                pat = {str(o[1]) for o in prov.origins(b, d[2]["args"][1]) if o[0] == "const"}
+                if pat == {'"//"'}:
+                    out.append(("slashes", i, other, zero))
+        elif d[0] == "stmt" and d[3].get("binop") in ("Eq", "Ne", "Lt", "Le", "Gt", "Ge"):
+            rv = d[3]
+            ops = [rv["a"], rv["b"]]
+            consts = [op_const_int(o) for o in ops]
+            known = [c for c in consts if c is not None]
+            if len(known) == 1:
+                ci = 0 if consts[0] is not None else 1
+                oth = ops[1 - ci]
+                is_count = False
+                for o in prov.origins(b, oth):
+                    if o[0] == "call" and str(o[1]).endswith("Iterator::count"):
+                        recv = b.term(o[2])["args"][0]
+                        for o2 in prov.origins(b, recv):
+                            if o2[0] == "call" and str(o2[1]).endswith("<impl str>::matches"):
+                                pat = b.term(o2[2])["args"][1]
+                                c = pat.get("const") or {}
+                                if c.get("int") == 10 or c.get("val") in ('"\\n"', "'\\n'"):
+                                    is_count = True
+                if is_count:
+                    # which newline counts take which edge: the passing edge is the one taken by exactly one newline; the
+                    # test is the adjacency test if two or more newlines (a blank line) take the other one
+                    def holds(n):
+                        x, y = (known[0], n) if ci == 0 else (n, known[0])
+                        return {"Eq": x == y, "Ne": x != y, "Lt": x < y, "Le": x <= y, "Gt": x > y, "Ge": x >= y}[rv["binop"]]
+                    edge = lambda n: other if holds(n) else zero
+                    if edge(2) == edge(3) == edge(7) and edge(1) != edge(2):
+                        out.append(("nl1", i, edge(1), edge(2)))
+    return out
+
+
+def op_const_int(op):
+    c = op.get("const") if isinstance(op, dict) else None
+    return c.get("int") if c else None
+
+
+def doc_adjacency(ck, prog, eb):
+    ck.rule("R19.4", "every doc-comment line collected is a `//` comment separated by exactly one newline from the line below")
+    gates = _gates(prog, eb)
+    pushes = [i for i, t in eb.calls() if (Body.callee(t) or "").endswith("Vec::<T, A>::push")]
+
+    def on_cycle(blk, avoid=()):
+        st = list(eb.succ(blk))
+        seen = set()
+        while st:
+            x = st.pop()
+            if x in seen or x in avoid or eb.is_cleanup(x):
+                continue
+            if x == blk:
+                return True
+            seen.add(x)
+            st.extend(eb.succ(x))
+        return False
+    looped = [p for p in pushes if on_cycle(p)]
+    need = (("ws", "the separator is a whitespace token"), ("nl1", "the separator contains exactly one newline"),
+            ("comment", "the line is a LineComment token"), ("slashes", "the comment starts with //"))
+    if looped:
+        for p in looped:
+            for kind, what in need:
+                ok = False
+                for k, blk, pass_t, fail_t in gates:
+                    if k != kind:
+                        continue
+                    per_iteration = not on_cycle(p, avoid={blk})
+                    wrong_edge = p in eb.reachable(fail_t, avoid={blk})
+                    if per_iteration and not wrong_edge:
+                        ok = True
+                ck.ob("R19.4", "doc-line:%s" % kind, ok, "each collected line passes the test: %s" % what,
+                      msg="hover::extract_doc_comments: a comment line can be added to the documentation without the test "
+                          "that %s on that iteration [%s]: lines that are not contiguous with the declaration (separated "
+                          "by a blank line, or not `//` comments) become part of the hover text" % (what, eb.where(p)))
+        ck.floor("R19.4", "per-line tests of the doc-comment walk", len(need) * len(looped), 4)
+        return
+    # iterator form: the lines are collected by adaptors; the per-line tests must then live in their closures
+    inner = []
+    for c in prog.closures_of(eb.path):
+        inner += [g[0] for g in _gates(prog, c)]
+    outer = [g[0] for g in gates]
+    ok = "nl1" in inner or ("nl1" not in outer and not inner and not pushes)
+    ck.ob("R19.4", "doc-line:iterator-form", "nl1" in inner,
+          "the one-newline test is evaluated per collected line (inside an iterator closure)",
+          msg="hover::extract_doc_comments collects comment lines without testing, for each line, that exactly one newline "
+              "separates it from the line below (the test is %s): comment groups separated by blank lines are glued to the "
+              "documentation" % ("made once outside the collection" if "nl1" in outer else "absent"))
